@@ -34,7 +34,7 @@ def drivers(nodes):
 def edit(rng, d, names):
     nodes = d["nodes"]
     kind = rng.choice(["unmark", "unmark", "dead_gate", "dead_gate", "dead_chain", "unloaded_input", "dead_only_input",
-                       "dead_const", "dead_flop_q", "dead_tree"])
+                       "dead_const", "dead_flop_q", "dead_tree", "unloaded_bbout"])
     if kind == "unmark":
         outs = [n for n in nodes if n[2]]
         for n in rng.sample(outs, min(len(outs), rng.randint(1, 2))):
@@ -81,6 +81,14 @@ def edit(rng, d, names):
             d["bbs"].append([inst, "ff", ["clk", "d"], ["q"]])
             if rng.random() < 0.4:
                 nodes.append([fresh(names, "dg"), "not", False, [q]])
+    elif kind == "unloaded_bbout":
+        # a blackbox whose output pin has no load at all (never connected)
+        inst = fresh(names, "ub")
+        on = rng.choice(drivers(nodes))
+        nodes.append([f"{inst}.d", "bb_input", False, [on]])
+        nodes.append([f"{inst}.q", "bb_output", rng.random() < 0.1, []])
+        names.update({f"{inst}.d", f"{inst}.q"})
+        d["bbs"].append([inst, "lat", ["d"], ["q"]])
     return kind
 
 
@@ -141,8 +149,11 @@ def handmade():
         ["a", "input", False, []], ["clk", "input", False, []], ["n", "not", False, ["a"]],
         ["ff0.d", "bb_input", False, ["n"]], ["ff0.clk", "bb_input", False, ["clk"]], ["ff0.q", "bb_output", False, []],
         ["qb", "buf", False, ["ff0.q"]], ["dd", "not", False, ["qb"]]]}
+    noq = {"name": "top", "bbs": [["u0", "lat", ["d"], ["q"]]], "nodes": [
+        ["a", "input", True, []], ["u0.d", "bb_input", False, ["a"]], ["u0.q", "bb_output", False, []]]}
     for inp in (False, True):
         out.append({"circuit": json.loads(json.dumps(flop)), "inputs": inp, "edits": ["hand:flop_dead_q"]})
+        out.append({"circuit": json.loads(json.dumps(noq)), "inputs": inp, "edits": ["hand:bbout_unloaded_from_start"]})
     return out
 
 
